@@ -22,7 +22,8 @@ def _close():
 
 
 def _comma():
-    return ",\n   /* , */ " if STYLE["layout"] else ", "
+    # (the comment stands before the comma: a comment that follows a comma is a pinned formatter finding of C14)
+    return " /* , */,\n   " if STYLE["layout"] else ", "
 
 
 def _ann(name, ty):
